@@ -51,22 +51,23 @@ def udpqCmd (args : List String) : String :=
   | _ => "bad-op"
 
 /-- `udpl <cap> | send <hex> ; rel ; …` — the real `Listen` loop with the processing goroutine held inside the parser:
-    one datagram is in the parser, `cap` are in the queue, so a datagram is accepted iff fewer than `cap + 1` are pending.
-    The model is the same packet queue with `cap + 1` slots; `rel` lets the oldest pending datagram through (`process`). -/
+    the two-stage model `UdpL` (one datagram in flight inside the parser, `cap` in the channel); `rel` lets the datagram in
+    flight through. `SE.Props.C18.udpl_refines_queue`: this is the packet queue `UdpQ` with `cap + 1` slots, so the
+    `UdpQ` theorems apply. -/
 def udplCmd (args : List String) : String :=
   match args with
   | cap :: "|" :: rest =>
     let subs := splitOnTok ";" rest
-    let s0 : UdpQ := { cap := cap.toNat?.getD 0 + 1 }
-    let s := subs.foldl (fun (s : UdpQ) sub =>
+    let s0 : UdpL := { cap := cap.toNat?.getD 0 }
+    let s := subs.foldl (fun (s : UdpL) sub =>
       match sub with
       | ["send", h] =>
         match decHex h with
-        | some b => s.enqueue b b.length
+        | some b => s.recv b b.length
         | none => s
-      | ["rel"] => (s.process).getD s
+      | ["rel"] => (s.release).getD s
       | _ => s) s0
-    s!"packets={s.packets} drops={s.drops} queued={s.queue.length} {linesStr s.handled}"
+    s!"packets={s.packets} drops={s.drops} queued={s.inflight.toList.length + s.queue.length} {linesStr s.handled}"
   | _ => "bad-op"
 
 end SE.Driver
